@@ -369,6 +369,20 @@ def fileOffsets (file : Option (List Char)) : ReadRes :=
   | some [] => .ok [1]        -- empty file cannot be mapped: ignored
   | some d => readNamesFile d
 
+/-- `BasicProblem::item_name` (src/problem.cc): generated name `stub k` with `]` after a stub ending in `[`,
+otherwise `_`; index counted from `ksub` -/
+def itemName (stub : Name) (k ksub : Nat) : Name :=
+  stub ++ dec (k - ksub + 1) ++ (if stub.getLast? = some '[' then [']'] else ['_'])
+
+/-- the names `BasicProblem` invents when nothing was read but names are asked for by the graph export
+(`cvt:writegraph`): `_x[i]`, `_sdvar[i]`, `_CON<i>_`, `_LCON<i>_`, `_OBJ<i>_` -/
+def itemNamesModel (nv ndv ncon nalg nobj : Nat) : List Name × List Name × List Name :=
+  ((List.range (nv + ndv)).map fun k =>
+      if k < nv then itemName "_x[".toList k 0 else itemName "_sdvar[".toList k nv,
+   (List.range ncon).map fun k =>
+      if k < nalg then itemName "_CON".toList k 0 else itemName "_LCON".toList k nalg,
+   (List.range nobj).map fun k => itemName "_OBJ".toList k 0)
+
 structure NamesIn where
   mode : Nat                 -- cvt:names
   col : Option (List Char)
